@@ -74,11 +74,30 @@ let he_line e = Printf.sprintf "ok elen=%d h=%016Lx" (Bytes.length e) (fnv_bytes
 let hd_line d = Printf.sprintf "ok dlen=%d h=%016Lx" (Bytes.length d) (fnv_bytes d)
 let rt_line e d rest = Printf.sprintf "ok elen=%d h=%016Lx dlen=%d hd=%016Lx rest=%s" (Bytes.length e) (fnv_bytes e) (Bytes.length d) (fnv_bytes d) rest
 
+let chunks_of s = if s = "-" then [] else List.filter (fun c -> c <> []) (List.map bytes_of_hex (String.split_on_char '.' s))
+let chunks_str cs = if cs = [] then "-" else String.concat "." (List.map hex_of_bytes cs)
+let spec_of line = let i = (try String.index line '|' with Not_found -> 0) in String.trim (String.sub line (i + 1) (String.length line - i - 1))
 let unchunk spec = String.concat "" (List.filter (fun c -> c <> "-") (String.split_on_char '.' spec))
 let rec handle ws = match ws with
-  (* chunked variants: the model is defined on the remaining-bytes view, i.e. on the concatenation *)
-  | ["pi.decc"; size; spec] -> handle ["pi.dec"; size; (let h = unchunk spec in if h = "" then "-" else h)]
-  | ["ps.decc"; size; spec] -> handle ["ps.dec"; size; (let h = unchunk spec in if h = "" then "-" else h)]
+  (* chunked variants: the MODEL column runs the decoders of Model/ChunkedQpack.v (bytes-crate provided methods over
+     chunk()/advance()) on the chunk list (empty chunks dropped, as h3v::ChunkBuf::new does) and prints the chunks of the
+     buffer left behind; the SPEC column is the RFC reference on the concatenation *)
+  | ["pi.decc"; size; spec] ->
+    let m = (match pi_decode_buf (n_of_int (int_of_string size)) (chunks_of spec) with
+      | Ok ((f, v), rest) -> Printf.sprintf "ok %s %s %s" (string_of_n f) (string_of_n v) (chunks_str rest)
+      | Err e -> pi_err_s e
+      | Panic _ -> "panic") in
+    m ^ " | " ^ spec_of (handle ["pi.dec"; size; (let h = unchunk spec in if h = "" then "-" else h)])
+  | ["ps.decc"; size; spec] ->
+    let m = (match ps_decode_buf (n_of_int (int_of_string size)) (chunks_of spec) with
+      | Ok (v, rest) -> Printf.sprintf "ok %s %s" (hex_of_bytes v) (chunks_str rest)
+      | Err PsUnexpectedEnd -> "err end"
+      | Err (PsInteger PiOverflow) -> "err overflow"
+      | Err (PsInteger PiUnexpectedEnd) -> "err ?"
+      | Err (PsHuffman e) -> "err huffman " ^ huff_err_s e
+      | Err PsBufSize -> "err bufsize"
+      | Panic _ -> "panic") in
+    m ^ " | " ^ spec_of (handle ["ps.dec"; size; (let h = unchunk spec in if h = "" then "-" else h)])
   | ["he.big"; len; seed] ->
     let s = gen (Int64.of_string seed) (int_of_string len) in
     let sp = he_line (native_huff_encode s) in
